@@ -92,6 +92,13 @@ def make_files(d, thorough):
     V.write_pvd(pvd, ["step_0.vtu", "step_1.vtu"])
     out.append(("pvd/index", pvd, [s0, s1]))
     out.append(("pvd/step", s1, [pvd, s0]))
+    # a sequence whose steps are parallel data sets: the index file of the LATER step is damaged (a lost <Piece> leaves a
+    # well-formed file that describes a smaller mesh: that step fails for its domain alone, after a step that passed)
+    pv1 = os.path.join(d, "par_step1.pvtu")
+    V.write_pvtu(pv1, ["piece_0.vtu", "piece_1.vtu"], [("p", "Float64", 1, [])], [("c", "Float64", 1, [])])
+    pvd2 = os.path.join(d, "seq_par.pvd")
+    V.write_pvd(pvd2, ["par.pvtu", "par_step1.pvtu"])
+    out.append(("pvtu/index as a later step of a .pvd", pv1, [pvd2, pv, pa, pb]))
     # a .vtu with two <Piece> elements (the reader supports one piece only and must not silently read a part of the file)
     one = os.path.join(d, "one_piece_tmp.vtu")
     V.write_vtu(one, PTS[:4], [(9, [0, 1, 2, 3])], [("p", "Float64", 1, [0.5, 1.5, 2.5, 3.5])], [("c", "Float64", 1, [10.0])], V.Cfg("ascii"))
@@ -245,6 +252,8 @@ def run(ctx):
             compare_name = "par.pvtu"
         if label in ("pvd/step",):
             compare_name = "seq.pvd"
+        if label.startswith("pvtu/index as a later step"):
+            compare_name = "seq_par.pvd"
         cuts = list(range(0, eod))
         stride_note[label] = {"file_bytes": len(data), "end_of_data": eod, "cuts": len(cuts)}
         for k in cuts:
